@@ -5,10 +5,12 @@ import json, os, re, shutil, subprocess, sys
 P, V = sys.argv[1], sys.argv[2]
 src = f"/tmp/seed-out/{P}/{V}"
 dst = f"/verif/seeded/{P}-{V}"
+patch = "patch.rebased.diff" if os.path.exists(f"{src}/patch.rebased.diff") else "patch.diff"
+if not os.path.exists(f"{src}/{patch}") or not os.path.exists(f"{src}/verify.log"):
+    sys.exit(f"{src}: no {patch} / verify.log - nothing saved, {dst} left as it is")
 if os.path.exists(dst):
     shutil.rmtree(dst)
 os.makedirs(dst)
-patch = "patch.rebased.diff" if os.path.exists(f"{src}/patch.rebased.diff") else "patch.diff"
 shutil.copy(f"{src}/{patch}", f"{dst}/patch.diff")
 for f in os.listdir(src):
     if f in ("patch.diff", "patch.rebased.diff", "verify.log") or f.endswith(".log"):
